@@ -89,6 +89,7 @@ def handle (line : String) : String :=
         "FIND " ++ " # ".intercalate ((sers (findAllRoot query es)) :: nodes.map fun n => sers (findAll query n))
       | .error e => showErr e
     | _, _, _ => "bad-arg"
+  | "buf" :: args => bufHandle args
   | _ => "bad-op"
 
 partial def loop (h : IO.FS.Stream) (out : IO.FS.Stream) : IO Unit := do
